@@ -16,6 +16,7 @@ import (
 	"os"
 	"strings"
 	"sync"
+	"sync/atomic"
 	"time"
 
 	p9p "github.com/frobnitzem/go-p9p"
@@ -129,6 +130,7 @@ func runCliScenario(sc cliScenario, run int, res *hx.Result) []cliEvent {
 	// peer reader: records every request
 	var wmu sync.Mutex // serialises peer writes
 	autoReply := false
+	heldZero, heldLast := false, false
 	go func() {
 		for {
 			var fc p9p.Fcall
@@ -145,6 +147,16 @@ func runCliScenario(sc cliScenario, run int, res *hx.Result) []cliEvent {
 			r.lastTag = fc.Tag
 			r.log(cliEvent{E: "preq", I: id, Tag: int(fc.Tag)})
 			ar := autoReply && id >= 1000
+			if ar && ((fc.Tag == 0 && !heldZero) || (fc.Tag == 0xFFFE && !heldLast)) {
+				// keep the request that got tag 0 (and the one that got the last tag before NOTAG) unanswered
+				// across the next wrap-around of the allocator
+				if fc.Tag == 0 {
+					heldZero = true
+				} else {
+					heldLast = true
+				}
+				ar = false
+			}
 			if ar {
 				r.answered[id] = true
 				r.log(cliEvent{E: "preply", I: id, Tag: int(fc.Tag), Kind: "ok"})
@@ -233,21 +245,36 @@ func runCliScenario(sc cliScenario, run int, res *hx.Result) []cliEvent {
 		r.waitFor(2*time.Second, func() bool { return r.nreq >= 3 })
 		autoReply = true
 		r.mu.Unlock()
-		for k := 0; k < sc.Wrap; k++ {
-			id := 1000 + k
-			r.mu.Lock()
-			r.log(cliEvent{E: "start", I: id})
-			r.mu.Unlock()
-			d, err := sess.Stat(bg, p9p.Fid(id))
-			kk, src := classifyRet(id, d, err)
-			r.mu.Lock()
-			r.returned[id] = true
-			r.log(cliEvent{E: "ret", I: id, Res: kk, Src: src})
-			r.mu.Unlock()
-			if err != nil {
-				break
-			}
+		// two issuers, so that the stream goes on while one call is kept waiting by the peer
+		var next int64
+		firstDone := make(chan struct{})
+		var once sync.Once
+		for w := 0; w < 3; w++ {
+			wg.Add(1)
+			go func() {
+				defer wg.Done()
+				defer once.Do(func() { close(firstDone) })
+				for {
+					k := int(atomic.AddInt64(&next, 1))
+					if k > sc.Wrap {
+						return
+					}
+					id := 1000 + k
+					ctx, cancel := context.WithTimeout(bg, 20*time.Second)
+					d, err := sess.Stat(ctx, p9p.Fid(id))
+					cancel()
+					kk, src := classifyRet(id, d, err)
+					if kk == "ctx" {
+						return // this issuer's call is the one the peer holds back
+					}
+					if kk != "ok" || src != id {
+						res.Violate("C05", "bulk-call-wrong-result", fmt.Sprintf("sequential call %d returned %s/%d (%v)", id, kk, src, err), sc)
+						return
+					}
+				}
+			}()
 		}
+		<-firstDone // every call has been issued; the held ones are answered by the end-of-scenario peer below
 	}
 	nfault := 0
 	for _, st := range sc.Steps {
@@ -368,14 +395,92 @@ func runCliScenario(sc cliScenario, run int, res *hx.Result) []cliEvent {
 	return ev
 }
 
+// wrongTypeMatrix (C12): every Session call answered with every well-formed reply of another
+// type (right tag) must return an error to the caller.
+func wrongTypeMatrix(res *hx.Result) int {
+	cli, srv := gconn.Pair(0)
+	raw := p9p.NewChannel(srv, p9p.DefaultMSize)
+	bg := context.Background()
+	replies := []p9p.Message{p9p.MessageRversion{MSize: 1, Version: "9P2000"}, p9p.MessageRauth{}, p9p.MessageRattach{}, p9p.MessageRflush{},
+		p9p.MessageRwalk{}, p9p.MessageRopen{}, p9p.MessageRcreate{}, p9p.MessageRread{Data: []byte("x")}, p9p.MessageRwrite{Count: 1},
+		p9p.MessageRclunk{}, p9p.MessageRremove{}, p9p.MessageRstat{}, p9p.MessageRwstat{}, p9p.MessageTclunk{Fid: 1}}
+	var mu sync.Mutex
+	next := p9p.Message(p9p.MessageRclunk{})
+	go func() {
+		var tv p9p.Fcall
+		if raw.ReadFcall(bg, &tv) != nil {
+			return
+		}
+		raw.WriteFcall(bg, &p9p.Fcall{Type: p9p.Rversion, Tag: p9p.NOTAG, Message: p9p.MessageRversion{MSize: p9p.DefaultMSize, Version: "9P2000"}})
+		for {
+			var fc p9p.Fcall
+			if raw.ReadFcall(bg, &fc) != nil {
+				return
+			}
+			mu.Lock()
+			m := next
+			mu.Unlock()
+			raw.WriteFcall(bg, &p9p.Fcall{Type: m.Type(), Tag: fc.Tag, Message: m})
+		}
+	}()
+	sess, err := p9p.CSession(bg, cli)
+	if err != nil {
+		res.Violate("harness", "harness:wrongtype-session", err.Error(), nil)
+		return 0
+	}
+	defer cli.Close()
+	type call struct {
+		name  string
+		right p9p.FcallType
+		f     func(ctx context.Context) error
+	}
+	calls := []call{
+		{"Auth", p9p.Rauth, func(c context.Context) error { _, e := sess.Auth(c, 1, "u", "a"); return e }},
+		{"Attach", p9p.Rattach, func(c context.Context) error { _, e := sess.Attach(c, 1, p9p.NOFID, "u", "a"); return e }},
+		{"Clunk", p9p.Rclunk, func(c context.Context) error { return sess.Clunk(c, 1) }},
+		{"Remove", p9p.Rremove, func(c context.Context) error { return sess.Remove(c, 1) }},
+		{"Walk", p9p.Rwalk, func(c context.Context) error { _, e := sess.Walk(c, 1, 2, "a"); return e }},
+		{"Read", p9p.Rread, func(c context.Context) error { _, e := sess.Read(c, 1, make([]byte, 8), 0); return e }},
+		{"Write", p9p.Rwrite, func(c context.Context) error { _, e := sess.Write(c, 1, []byte("x"), 0); return e }},
+		{"Open", p9p.Ropen, func(c context.Context) error { _, _, e := sess.Open(c, 1, p9p.OREAD); return e }},
+		{"Create", p9p.Rcreate, func(c context.Context) error { _, _, e := sess.Create(c, 1, "n", 0644, p9p.OREAD); return e }},
+		{"Stat", p9p.Rstat, func(c context.Context) error { _, e := sess.Stat(c, 1); return e }},
+		{"WStat", p9p.Rwstat, func(c context.Context) error { return sess.WStat(c, 1, p9p.Dir{}) }},
+	}
+	n := 0
+	for _, c := range calls {
+		for _, m := range replies {
+			if m.Type() == c.right {
+				continue
+			}
+			mu.Lock()
+			next = m
+			mu.Unlock()
+			ctx, cancel := context.WithTimeout(bg, 3*time.Second)
+			err := c.f(ctx)
+			cancel()
+			n++
+			if err == nil {
+				res.Violate("C12", "wrong-typed-reply-accepted:"+c.name, fmt.Sprintf("%s answered with a %v reply (right tag) returned success", c.name, m.Type()),
+					map[string]interface{}{"engine": "client", "call": c.name, "reply": fmt.Sprint(m.Type())})
+			}
+		}
+	}
+	return n
+}
+
 func Client(args []string) {
 	fl := flag.NewFlagSet("client", flag.ExitOnError)
 	scPath := fl.String("scenarios", "", "ndjson file of scenarios")
 	out := fl.String("out", "", "result file")
 	tracePath := fl.String("trace", "", "trace output")
+	matrix := fl.Bool("wrongtype", false, "also run the wrong-typed-reply matrix (C12)")
 	fl.Parse(args)
 	res := hx.NewResult()
 	defer res.Write(*out)
+	if *matrix {
+		res.Set("wrongtype_cases", wrongTypeMatrix(res))
+	}
 	var scs []cliScenario
 	if err := hx.ReadNDJSON(*scPath, func(b []byte) error {
 		var s cliScenario
